@@ -59,7 +59,7 @@ rotations checked orthogonal) minus the mean charge, idempotent, right atoms sel
 tensor box is kept below the 0.1 "symmetry largely broken" warning threshold so that the real code takes one path.
 Quick 78 s."""
 AS["C09"] = """**As built** (`checks/c09.py`).  As planned; shift box [−0.1, 0.55] in quick, [−0.6, 0.55] in
-thorough; crystals include hexagonal and monoclinic cells.  Found defects F10 and F11 (both repaired; after the repair
+thorough; crystals include hexagonal and monoclinic cells.  Found defects F10 and F11 and, in the thorough tier, the half-shift/point-group incompatibility (§5) (all repaired; after the repair
 a general shift is sampled on the requested grid without time-reversal reduction and the three assertions hold on
 every path).  Added later: **api** units run the same assertions on the `GridPoints` object that
 `Phonopy.init_mesh` builds (rotations passed by the API; explicit mesh numbers and length-specified meshes through
